@@ -7,7 +7,7 @@ from checks.common import *
 
 # which fix: commits are in /repo => which revision of the model is the code (DESIGN §9).
 # order: rollback_replace, alias_steal_undo, alias_nodes_only, strict_order, slice_clamp, edge_origin, visited_chain, nodes_ids_alias
-REV = os.environ.get("VERIF_DB_REV", "11111111")
+REV = os.environ.get("VERIF_DB_REV", "111111111")
 
 
 def run_db(ctx, profile, n, steps, dump_every=8, variants="", maintenance=False, rev=None, sub="db", seed_off=0, watchdog_ms=0):
